@@ -114,16 +114,18 @@ type c05mem struct {
 	stream *c05mStream // current stream history (nil: none held)
 	snapS  *c05mSnap   // current snapshot (nil: none)
 	// live objects
-	aofW       AofChannelWriter
-	aofSR      *c05mStepReader
-	rdbW       RdbChannelWriter
-	rdbSR      *c05mStepReader
-	aofBlocked []byte // chunk of a stream append that is waiting for capacity
-	rdbBlocked []byte // chunk of a snapshot append that is waiting for capacity
-	readers    map[int]*c05mReader
-	nextRid    int
-	opIdx      int
-	trace      []string
+	aofW                   AofChannelWriter
+	aofSR                  *c05mStepReader
+	rdbW                   RdbChannelWriter
+	rdbSR                  *c05mStepReader
+	aofBlocked             []byte // chunk of a stream append that is waiting for capacity
+	rdbBlocked             []byte // chunk of a snapshot append that is waiting for capacity
+	readers                map[int]*c05mReader
+	nextRid                int
+	opIdx                  int
+	trace                  []string
+	manySegs, pinnedClosed bool
+	caseNo                 int
 }
 
 func (d *c05mem) emit(op string, out ...string) {
